@@ -112,6 +112,13 @@ func bvU64(v string) (uint64, bool) {
 // extractModel re-solves a failing obligation asking for everything a replay
 // needs: frame, context bytes, helper call results along the path, path.
 func (o *Obligation) extractModel(solver *smt.Solver) *Model {
+	if o.raw != "" {
+		r := modelSolve(o.raw, solver.Timeout)
+		if r.Status != "sat" {
+			return nil
+		}
+		return &Model{Solver: r.Solver, Extra: r.Values}
+	}
 	res := o.res
 	frameCap := 2048
 	small := smt.App(smt.Bool, "bvule", res.pktLen0, lit(1514, 64)) // prefer an Ethernet-sized frame
